@@ -92,6 +92,12 @@ pub struct Parsed {
     pub entry_offsets: Vec<usize>,
 }
 
+thread_local! {
+    /// streams longer than this are not copied into the logical dump (`data: None`); the rules are
+    /// unaffected. Only the > 4 GiB scenario lowers it.
+    pub static MAX_DUMP: std::cell::Cell<u64> = std::cell::Cell::new(u64::MAX);
+}
+
 fn u16le(b: &[u8], o: usize) -> u16 {
     u16::from_le_bytes([b[o], b[o + 1]])
 }
@@ -770,7 +776,9 @@ pub fn parse(bytes: &[u8]) -> Result<Parsed, String> {
         if is_stream {
             let mut e2 = e.clone();
             e2.size = size;
-            node.data = p.read_stream(bytes, &e2);
+            if size <= MAX_DUMP.with(|m| m.get()) {
+                node.data = p.read_stream(bytes, &e2);
+            }
         } else if depth < 4096 {
             if let Some(ch) = children_of.get(&id) {
                 for &c in ch {
